@@ -30,7 +30,7 @@ RULE = ('two case kinds. enum: corpus files that compile, re-encoded (LF / CRLF 
         'least 10 positions checked; distinct by text digest.')
 ASSUMPTIONS = c01.ASSUMPTIONS + ['CPython 3.12 tokenize/ast as ground truth for tokens and binding',
                                  'del targets and global/nonlocal names: either answer accepted']
-SIZES = {'quick': (160, 160, 4), 'thorough': (1600, 3000, 8)}
+SIZES = {'quick': (160, 160, 4), 'thorough': (1000, 1500, 8)}
 TIMEOUT = c01.TIMEOUT
 FORMATS = ['lf', 'crlf', 'cr', 'nofinal', 'tabs', 'formfeed', 'continuation', 'unicode']
 
